@@ -42,7 +42,9 @@ RANGES = {  # param -> (lo, hi, lo_strict, nice) in default unit
 }
 BOUNDS = {"hours_per_series": "N=2", "skeletons": "T1, T5 (quick: every input re-expressed at once); thorough: every "
           "(class, parameter, alternative unit) one at a time", "durations": "request_duration<=2h, step time<2h, "
-          "storage duration<=3h so that ceil/floor stay in 0..3", "units": {k: [a for a, _ in v] for k, v in ALT.items()}}
+          "storage duration<=3h so that ceil/floor stay in 0..3", "units": {k: [a for a, _ in v] for k, v in ALT.items()},
+          "mixed units": "one job re-expressed while another job on the same server/network/storage keeps its unit, series over different hours (T4 long steps, T3, T7)",
+          "edits": "T1: 8 inputs re-assigned on the computed system with the same magnitude in another unit"}
 ASSUMPTIONS = ["alternative unit magnitudes are the exact rational multiples of the default-unit magnitudes",
                "cpu_core/gpu (custom units) have no alternative spelling and are not re-expressed",
                "data_stored >= 0 (sign split is C04's subject); ram*utilisation > base consumption is not assumed: "
@@ -62,7 +64,9 @@ def slots_of(spec):
     return out
 
 
-def h_units(ctx, skeleton, n, which, args=None, sym_mode="touched"):
+def h_units(ctx, skeleton, n, which, args=None, sym_mode="touched", values=None):
+    """values: concrete overrides shared by both models (e.g. step durations above an hour, so that the series of jobs in
+    different steps cover different hours)"""
     spec = M.SKELETONS[skeleton](n, **(args or {}))
     gt = gt_sets(spec)
     allslots = slots_of(spec)
@@ -79,7 +83,7 @@ def h_units(ctx, skeleton, n, which, args=None, sym_mode="touched"):
     for (s, p, d, un, alt) in chosen:
         lo, hi, strict, nice = RANGES.get(p, (0, 10 ** 6, False, (max(d / 2, 0.01), d * 2 + 1)))
         sym[s] = dict(lo=lo, hi=hi, lo_strict=strict, nice=nice)
-    envA = M.Env(ctx, symbolic=sym)
+    envA = M.Env(ctx, symbolic=sym, values=dict(values or {}))
     values, units = {}, {}
     for (s, p, d, un, (alt_unit, factor)) in chosen:
         values[s] = envA.get(s, d) * factor
@@ -109,7 +113,39 @@ def h_units(ctx, skeleton, n, which, args=None, sym_mode="touched"):
     V.compare_systems(ctx, B, A, "re-expressed = default units")
 
 
-HARNESSES = {"units": h_units}
+def h_units_edit(ctx, skeleton, n, slot, alt, args=None):
+    """on a computed system an input is re-assigned with the *same magnitude in another unit* (5 MB -> 5 GB): the live
+    system equals the model built with that value from the start (the unit of a new value is never ignored)"""
+    from efootprint.abstract_modeling_classes.source_objects import SourceValue
+    spec = M.SKELETONS[skeleton](n, **(args or {}))
+    (s_, p, d, un) = [x for x in slots_of(spec) if x[0] == slot][0]
+    alt_unit, factor = ALT[un][alt]
+    lo, hi, strict, nice = RANGES.get(p, (0, 10 ** 6, False, (max(d / 2, 0.01), d * 2 + 1)))
+    sym = traffic_syms(spec)
+    sym[slot] = dict(lo=lo, hi=hi, lo_strict=True, nice=nice)
+    envA = M.Env(ctx, symbolic=sym)
+    x = envA.get(slot, d)
+    A = M.build(spec, envA)
+    V.observe_system(ctx, A, "A.")
+    name = slot.split(".")[0]
+    errA = errB = None
+    try:
+        setattr(A[name], p, SourceValue(x * M.u(alt_unit)))
+    except ValueError as e:
+        errA = e
+    try:
+        B = M.build(spec, envA.child(values={slot: x}, units={slot: alt_unit}))
+    except ValueError as e:
+        errB = e
+    if errA is not None or errB is not None:
+        ctx.require(errA is not None and errB is not None, "re-assignment and fresh build are both accepted or both rejected",
+                    robust=True, detail=f"live: {type(errA).__name__ if errA else 'ok'}; fresh: {type(errB).__name__ if errB else 'ok'}")
+        raise errA or errB
+    V.observe_system(ctx, B, "B.")
+    V.compare_systems(ctx, A, B, f"{slot} re-assigned as the same number of {alt_unit}: live = fresh")
+
+
+HARNESSES = {"units": h_units, "units_edit": h_units_edit}
 
 
 def plan(tier, seed):
@@ -121,6 +157,17 @@ def plan(tier, seed):
     if tier == "thorough":
         p += [("units", dict(skeleton="T1", n=2, which="all"), dict(max_seconds=2400)),
               ("units", dict(skeleton="T5", n=2, which="all"), dict(max_seconds=2400))]
+    # one job only re-expressed, in models where the jobs' hourly series cover different hours (sums of series in different
+    # units over different indexes)
+    long_steps = {"step1.user_time_spent": 70, "step2.user_time_spent": 65}
+    for param in ("ram_needed", "data_transferred", "data_stored"):
+        p.append(("units", dict(skeleton="T4", n=2, which=[f"jobB.{param}", 0], values=long_steps)))
+    p.append(("units", dict(skeleton="T3", n=2, which=["job2.ram_needed", 0], values={"step.user_time_spent": 61})))
+    p.append(("units", dict(skeleton="T7", n=2, which=["jobdel.data_stored", 0], args={"offset_hours": 1})))
+    # same magnitude, other unit, assigned on the computed system
+    for slot, alt in (("job.data_transferred", 0), ("job.ram_needed", 0), ("st.storage_capacity", 0), ("dev.lifespan", 0),
+                      ("srv.ram", 1), ("fr.average_carbon_intensity", 1), ("dev.power", 0), ("job.data_stored", 1)):
+        p.append(("units_edit", dict(skeleton="T1", n=2, slot=slot, alt=alt)))
     # one at a time
     import random
     rnd = random.Random(seed)
